@@ -54,6 +54,9 @@ def base_docs():
                               name="D", meta=META0 + [("N", ("metamap", [("A", I(1))]))], separator=True, frontmatter="name: x (y)", trailing=("the end",))))
     docs.append(("dups", Doc([A("K", I(1)), A("OTHER", S("o")), A("K", I(2)), A("TAIL", S("t"))], name="D")))
     docs.append(("nometa", Doc([A("ONLY", S("v"))], name="D")))
+    # identifiers may contain '.', '-' and '/': a dotted META field next to its own prefix, dotted body keys
+    docs.append(("dotted", Doc([A("A.B", S("ab")), A("A", S("a")), A("X-Y", I(1)), A("P/Q", S("pq"))], name="D",
+                               meta=[("TYPE", S("T")), ("SPEC", S("s")), ("SPEC.VERSION", S("6.0", "quoted")), ("SPEC.VERSION.MINOR", I(1))], separator=True)))
     return docs
 
 
@@ -106,7 +109,7 @@ def single_requests(d):
     for k in keys:
         for tag, v in ops:
             reqs.append({k: v})
-    mkeys = [k for k, _ in (d["meta"] or [])] + ["MFRESH"]
+    mkeys = [k for k, _ in (d["meta"] or [])] + ["MFRESH", "REL.NOTES"]
     for k in mkeys:
         for tag, v in ops:
             reqs.append({"META." + k: v})
